@@ -31,8 +31,10 @@ def main():
             sh("git -C /repo checkout -- .")
     out = os.path.join(VERIF, "seeded", name)
     os.makedirs(out, exist_ok=True)
-    shutil.copy(os.path.join(sdir, "patch.diff"), out)
-    shutil.copy(os.path.join(sdir, "demo.py"), out)
+    if os.path.abspath(sdir) != os.path.abspath(out):
+        shutil.copy(os.path.join(sdir, "patch.diff"), out)
+        shutil.copy(os.path.join(sdir, "demo.py"), out)
+    prev = meta.get("caught_by_other", [])
     m = dict(property=meta.get("property"), summary=meta.get("summary"), needs=meta.get("needs"), files=meta.get("files"),
              origin="written by a fresh sub-agent given only the property text and a scratch worktree",
              confirmed=dict(command="tools/verify_seed.sh (scratch worktree of /repo HEAD: git apply; pytest; demo with and without the patch)",
